@@ -206,9 +206,18 @@ def rule_samepath(ctx: Ctx, rule: str = "C12.same-path"):
                 ok = pos and pos[0].endswith("._specs") and kw.get("registry") == "self._callbacks" and kw.get("allowed_references") == al.params[2]
                 rep.check(bool(ok), rule, e.loc(), "resolution targets this instance's registry with the caller's reference policy", al.key, norm_stmt(e.node))
     it = ctx.fn("iterate_states_and_transitions")
-    ys = [norm_stmt(n) for n in sorted((n for n in own_nodes(it.node) if isinstance(n, ast.Expr) and isinstance(n.value, (ast.Yield, ast.YieldFrom))),
-                                       key=lambda n: n.lineno)]
-    rep.check(ys == ["yield state", "yield from state.transitions"], rule, it.loc(), "every state and each of its transitions is visited", it.key, "; ".join(ys))
+    n_it = 0
+    for p in ctx.paths(it, inline=None, exc_edges="none", unroll=1):
+        evs = p.events
+        if not any(e.kind == "iter" for e in evs):
+            continue
+        n_it += 1
+        el = f"{it.params[0]}[$k0]"
+        ys = [("from " if y.x.get("from") else "") + xshow(y.term, evs) for y in p.of("yield")]
+        filtered = any(b.kind == "branch" for b in evs)
+        rep.check(ys == [el, f"from {el}.transitions"] and not filtered, rule, it.loc(), "every state and each of its transitions is visited", it.key,
+                  "; ".join(ys) + (" (conditional)" if filtered else ""))
+    rep.floor(rule, "iterations of iterate_states_and_transitions analysed", n_it, 1)
     rc = ctx.fn("StateMachine._register_callbacks")
     for p in ctx.paths(rc, inline=None, exc_edges="none", unroll=1):
         evs = p.events
